@@ -63,6 +63,19 @@ Theorem chain_fixed_is_identity : forall argv text rep env sargv o oracle dest t
 Proof. exact chain_fixed_identity. Qed.
 Print Assumptions chain_fixed_is_identity.
 
+(* in particular the file that leaves the pipe is satisfiable exactly when the family model is: shuffling a benchmark
+   does not change its answer (with the C01-C03 theorems: `cnfgen php m n | cnfshuffle` is satisfiable iff m <= n, ...) *)
+Theorem chain_keeps_satisfiability : forall argv text rep env sargv o oracle dest t,
+  cnfgen_main argv = POut text -> pl_opb_of argv = false ->
+  shm_parse_args env sargv = PaOk o -> so_input o = None ->
+  cnfshuffle_main_gen rep env sargv text oracle = ShmOut dest t ->
+  exists n F, pl_formula argv = FrOk n F /\
+    (printable n -> printable (len F) ->
+     exists out, (forall u, parse_dimacs u t = DOk n out) /\
+                 ((exists a, cnf_sat a out = true) <-> (exists a, cnf_sat a F = true))).
+Proof. exact chain_equisatisfiable. Qed.
+Print Assumptions chain_keeps_satisfiability.
+
 (* non-vacuity: `cnfgen -q php 2 1 | cnfshuffle -q` with the draws 1, 0 (flips), 1 (variables), 2, 0 (clauses) *)
 Example chain_nonvacuous :
   exists text o,
